@@ -554,6 +554,46 @@ pub fn run(args: &[String]) -> i32 {
         );
         merge(&mut rep, "fold_over_files", accs, &stats, json!({"constructs": srcs.iter().map(|c| c.0).collect::<Vec<_>>(), "files": "2..=4", "offending_files": "1 or 2, every position", "layouts": ["single-file", "multi-file one crate", "multi-file crate per file"], "offending_item_alone_in_its_file": [false, true], "languages": 6}));
     }
+    // a member under a cfg that the target list *accepts* is a member like any other: its unsupported construct is reported
+    {
+        const GUARDS: [&str; 7] = [
+            "target_os = \"ios\"",
+            "any(target_os = \"ios\", target_os = \"macos\")",
+            "any(target_os = \"ios\", all(test, target_os = \"macos\"))",
+            "any(all(unix, target_os = \"ios\"), target_os = \"macos\")",
+            "all(feature = \"f\", any(target_os = \"ios\", debug_assertions))",
+            "not(target_os = \"android\")",
+            "all(not(test), not(target_os = \"android\"), target_os = \"ios\")",
+        ];
+        const MEMBERS: [&str; 3] = ["pub ticks: u64,", "pub pair: Vec<(u32, String)>,", "#[serde(flatten)] pub rest: Good,"];
+        let mut judged = 0u64;
+        for g in GUARDS {
+            for m in MEMBERS {
+                for position in ["struct-field", "variant-field"] {
+                    let src = if position == "struct-field" {
+                        format!("#[typeshare]\npub struct Good {{ pub a: u32 }}\n#[typeshare]\npub struct Outer {{ pub keep: u32, #[cfg({g})] {m} pub tail: u32 }}\n")
+                    } else {
+                        format!("#[typeshare]\npub struct Good {{ pub a: u32 }}\n#[typeshare]\n#[serde(tag = \"t\", content = \"c\")]\npub enum Outer {{ Sv {{ keep: u32, #[cfg({g})] {} tail: u32 }}, U }}\n", m.replace("pub ", ""))
+                    };
+                    let cfg = Cfg { target_os: vec!["ios".into()], ..Cfg::plain() };
+                    judged += 1;
+                    let rejected = match pipeline::parse_only(&[SrcFile::single(src.clone())], &cfg) {
+                        Ok(map) => map.values().any(|pd| !pd.errors.is_empty()),
+                        Err(Outcome::ParseFail(_)) => true,
+                        Err(_) => false,
+                    };
+                    if !rejected {
+                        rep.vios.add(Violation {
+                            sig: format!("C08|lib|accepted-silently|member-under-an-accepted-cfg|pos={position}|member={}", m.split(':').next().unwrap_or("").trim().rsplit(' ').next().unwrap_or("")),
+                            detail: json!({"cfg": g, "target_os": ["ios"], "source": src, "observation": "the target list keeps the member, so its unsupported construct has to be reported"}),
+                        });
+                    }
+                }
+            }
+        }
+        rep.cov("members_under_an_accepted_cfg", json!({"guards": GUARDS, "members": MEMBERS, "positions": ["struct-field", "variant-field"], "target_os": ["ios"], "judgements": judged}));
+        rep.cov_add("evaluations", judged);
+    }
     cli::c08_cli_family(&mut rep);
     cli::c08_arrival_family(&mut rep);
     require_nonvacuous(&mut rep);
